@@ -27,7 +27,30 @@ import traceback
 from .common import dump_json, ROOT
 
 
+def _maybe_coverage():
+    """VERIF_COVERAGE=<dir>: measure which lines / branches of stackscope this child executes (a development
+    aid for finding blind spots of the generators; never set by the registered commands)"""
+    d = os.environ.get("VERIF_COVERAGE")
+    if not d:
+        return
+    try:
+        import atexit
+        import coverage
+    except ImportError:
+        return
+    os.makedirs(d, exist_ok=True)
+    cov = coverage.Coverage(data_file=os.path.join(d, ".coverage"), data_suffix=True, branch=True,
+                            include=[os.path.join(os.environ.get("VERIF_REPO", "/repo"), "stackscope", "*")])
+    cov.start()
+
+    def done():
+        cov.stop()
+        cov.save()
+    atexit.register(done)
+
+
 def main() -> None:
+    _maybe_coverage()
     modname, tier, seed, outdir = sys.argv[1:5]
     seed = int(seed)
     inputs_file = None
